@@ -33,7 +33,8 @@
 //	TLVSingles(der) Enum               every (node, operator) of the menu of DESIGN §2.2:
 //	                                   delete, dup, empty, trunc-1, extend-1, swap-next,
 //	                                   retag→{02,04,03,30,31,[0],[1],05}, len+1, len-1,
-//	                                   len-long (non-minimal), len-indef, payload→{00,ff,80,
+//	                                   len-long (non-minimal), len-indef, hollow (declared length kept,
+//	                                   content removed), hollow-1 (length 1, no content), payload→{00,ff,80,
 //	                                   7fff,16,17,31,32,33 bytes}. Lengths of all ANCESTORS are
 //	                                   recomputed, so the mutation reaches the inner parser.
 //	TLVPairs(der) Enum                 two simultaneous mutations from the CORE menu on two
@@ -72,6 +73,18 @@
 //	                                   the same encoding with its components, for reference oracles
 //	CertModel(d) Enum                  EnumAssignments + Encode, desc = Assignment.String()
 //	SignerKeyName(a) string            fx key fixture that signed (or would sign) the certificate
+//	Extension(oid, critical, value)    one encoded Extension element (for hand-built certificates)
+//	ModelExtension(field, alt) []byte  the Extension bytes the model uses, e.g. ("poison","critical"),
+//	                                   ("sct","valid"), ("san","valid")
+//	AssembleCert(tbs, sigAlg, sig)     SEQUENCE { tbs, sigAlg, BIT STRING sig }
+//
+// Signing: a self-issued certificate ("selfissued=yes", the default) is signed by the private key
+// BEHIND its subject key alternative (the odd RSA/EC/DSA/Ed25519 alternatives are derived from the
+// fixtures rsa1024 / p256 / dsa1024 / Ed("xgen-subject"), so e.g. key=rsa-e-neg1 carries a genuine
+// rsa1024 signature that the malformed key cannot verify); "selfissued=no" is signed by
+// Ed("xgen-issuer"). The alternatives of "sigval" other than "valid" replace that signature
+// (zero/ff keep its length; eq-n is the RSA modulus). The model has 28 fields and 328 non-default
+// alternatives: 329 / 51 416 / 5 082 698 assignments for d = 1 / 2 / 3 (~65 µs per Encode).
 //
 // Key kinds ("key" field): ed25519 (default), ed25519-31/-0/-33, rsa, rsa-e0, rsa-e-neg1,
 // rsa-e-neg65537, rsa-e-2p40, rsa-n0, rsa-n-neg, rsa-n1, ec-p224/p256/p384/p521, ec-offcurve,
@@ -86,8 +99,10 @@
 //	                                   SST / recorded TLS handshake message found under repoDir
 //	                                   (PEM files, PEM and hex literals inside .go files, raw files
 //	                                   in testdata directories); sorted, de-duplicated
-//	MintedSeeds() []Seed               fx.Mint certificates: RSA, ECDSA×4, Ed25519 (self-signed)
-//	                                   and an Ed25519-signed leaf for each
+//	MintedSeeds() []Seed               certificates made by zcrypto's own CreateCertificate (fx.Mint):
+//	                                   a self-signed CA for RSA-1024, P-224/256/384/521, Ed25519 and a
+//	                                   leaf (Ed25519 subject key) signed by each CA. Byte-identical in
+//	                                   every process (ECDSA CAs sign with RFC 6979 nonces)
 //	Kinds: cert crl csr pubkey privkey-pkcs1 privkey-pkcs8 privkey-ec ocsp-response ocsp-request
 //	       crlset onecrl sst tls-handshake der (= other DER)
 //	OfKind(seeds, kinds...) []Seed
